@@ -21,6 +21,33 @@ typedef struct S_class_std__vector Vec;
 #define NOTP 0xFFFFFFFFu
 #define PARENT(i) (((i) - 1) / ARITY)
 
+/* -DFIX_N=<n> / -DFIX_HS=<hs> / -DFIX_M=<m>: one job per size.  The size is ASSIGNED (not assumed) so that the
+ * verifier propagates it as a constant: with a symbolic size every std::vector reallocation path stays feasible and
+ * the solver runs out of memory. */
+#ifdef FIX_N
+#define FIX_N_ in_n = FIX_N;
+#else
+#define FIX_N_
+#endif
+#ifdef FIX_HS
+#define FIX_HS_ in_hs = FIX_HS;
+#else
+#define FIX_HS_
+#endif
+#define FIX_SIZES FIX_N_ FIX_HS_
+#ifdef FIX_M
+#define FIX_M_ in_m = FIX_M;
+#else
+#define FIX_M_
+#endif
+
+/* std::vector growth beyond the capacity provided by the harness is outside the bound of these jobs: the entry points of
+ * libstdc++'s reallocation paths are replaced by stubs that FAIL when reached (so "not reached" is proved, not assumed) */
+uint64_t stub_no_realloc_len(Vec* v, uint64_t n, uint8_t* what)
+{ __CPROVER_assert(0, "std::vector does not reallocate within the capacity bound of this job"); __CPROVER_assume(0); return 0; }
+uint32_t* stub_no_realloc_copy(Vec* v, uint64_t n, uint32_t* first, uint32_t* last)
+{ __CPROVER_assert(0, "std::vector does not reallocate within the capacity bound of this job"); __CPROVER_assume(0); return 0; }
+
 /* comparator of the configuration */
 #if CMP_PRIO
 static const uint32_t* g_prio;
@@ -67,7 +94,7 @@ static _Bool ah_top_min(const AH* h)
 /* arbitrary heap: heap_ in a block of NMAX keys, handles_ in a block of HMAX entries (no reallocation needed) */
 #define MK_AH()                                                                                              \
   AH hp; DECL_PRIO INPUT_ARR(uint32_t, in_heap, NMAX); INPUT_ARR(uint32_t, in_hand, HMAX);                    \
-  INPUT(uint64_t, in_n); INPUT(uint64_t, in_hs); __CPROVER_assume(in_n <= NMAX && in_hs <= HMAX);            \
+  INPUT(uint64_t, in_n); INPUT(uint64_t, in_hs); FIX_SIZES __CPROVER_assume(in_n <= NMAX && in_hs <= HMAX);  \
   uint32_t* hb = malloc(NMAX * 4); uint32_t* db = malloc(HMAX * 4); __CPROVER_assume(hb != 0 && db != 0);     \
   for (unsigned i_ = 0; i_ < NMAX; i_++) hb[i_] = in_heap[i_];                                                \
   for (unsigned i_ = 0; i_ < HMAX; i_++) db[i_] = in_hand[i_];                                                \
@@ -183,7 +210,7 @@ static _Bool keys_distinct(const uint32_t* ks, uint64_t m)
 void c_build(AH* h, uint32_t* ks, uint64_t m, Vec* kv, uint32_t g, _Bool want)
 __CPROVER_requires(ah_wf(h) && m <= NMAX && keys_distinct(ks, m) && g < HMAX && want == key_listed(ks, m, g))
 __CPROVER_requires(KIND == 0 || (VB(*kv) == ks && VE(*kv) == ks + m && VC(*kv) == ks + NMAX))
-__CPROVER_assigns(*h, *kv, __CPROVER_object_whole(VB(HEAP(h))), __CPROVER_object_whole(VB(HAND(h))), ir_live_allocs)
+__CPROVER_assigns(*h, *kv, __CPROVER_object_whole(VB(HEAP(h))), __CPROVER_object_whole(VB(HAND(h))), __CPROVER_object_whole(ks), ir_live_allocs)
 __CPROVER_frees(VB(HEAP(h)), VB(HAND(h)))
 __CPROVER_ensures(ah_handles_ok(h) && ah_order_ok(h, NMAX) && ah_n(h) == m && ah_top_min(h))
 __CPROVER_ensures(ah_member(h, g) == want)
@@ -198,7 +225,7 @@ __CPROVER_ensures(ah_member(h, g) == want)
 }
 void HARNESS(void)
 {
-  MK_AH() INPUT_ARR(uint32_t, in_keys, NMAX); INPUT(uint64_t, in_m); INPUT(uint32_t, in_g);
+  MK_AH() INPUT_ARR(uint32_t, in_keys, NMAX); INPUT(uint64_t, in_m); INPUT(uint32_t, in_g); FIX_M_
   __CPROVER_assume(ah_wf(&hp) && in_m <= NMAX && in_g < HMAX);
 #ifdef FROM_EMPTY
   __CPROVER_assume(in_n == 0);
@@ -257,7 +284,7 @@ static uint64_t dh_count(const DH* h, uint32_t v) { uint64_t n = dh_n(h), c = 0;
 static _Bool dh_top_min(const DH* h)
 { uint64_t n = dh_n(h); for (uint64_t i = 1; i < NMAX; i++) if (i < n && CMP(VB(HEAP(h))[i], VB(HEAP(h))[0])) return 0; return 1; }
 #define MK_DH()                                                                                              \
-  DH hp; DECL_PRIO INPUT_ARR(uint32_t, in_heap, NMAX); INPUT(uint64_t, in_n); __CPROVER_assume(in_n <= NMAX);  \
+  DH hp; DECL_PRIO INPUT_ARR(uint32_t, in_heap, NMAX); INPUT(uint64_t, in_n); uint64_t in_hs; FIX_SIZES __CPROVER_assume(in_n <= NMAX);  \
   uint32_t* hb = malloc(NMAX * 4); __CPROVER_assume(hb != 0);                                                 \
   for (unsigned i_ = 0; i_ < NMAX; i_++) hb[i_] = in_heap[i_];                                                \
   VB(HEAP(&hp)) = hb; VE(HEAP(&hp)) = hb + in_n; VC(HEAP(&hp)) = hb + NMAX;                                   \
@@ -308,7 +335,7 @@ static uint64_t keys_count(const uint32_t* ks, uint64_t m, uint32_t v) { uint64_
 void c_build(DH* h, uint32_t* ks, uint64_t m, Vec* kv, uint32_t v, uint64_t cv)
 __CPROVER_requires(dh_wf(h) && m <= NMAX && cv == keys_count(ks, m, v))
 __CPROVER_requires(KIND == 0 || (VB(*kv) == ks && VE(*kv) == ks + m && VC(*kv) == ks + NMAX))
-__CPROVER_assigns(*h, *kv, __CPROVER_object_whole(VB(HEAP(h))), ir_live_allocs)
+__CPROVER_assigns(*h, *kv, __CPROVER_object_whole(VB(HEAP(h))), __CPROVER_object_whole(ks), ir_live_allocs)
 __CPROVER_frees(VB(HEAP(h)))
 __CPROVER_ensures(dh_order_ok(h) && dh_n(h) == m && dh_top_min(h) && dh_count(h, v) == cv)
 {
@@ -322,7 +349,7 @@ __CPROVER_ensures(dh_order_ok(h) && dh_n(h) == m && dh_top_min(h) && dh_count(h,
 }
 void HARNESS(void)
 {
-  MK_DH() INPUT_ARR(uint32_t, in_keys, NMAX); INPUT(uint64_t, in_m); INPUT(uint32_t, in_v);
+  MK_DH() INPUT_ARR(uint32_t, in_keys, NMAX); INPUT(uint64_t, in_m); INPUT(uint32_t, in_v); FIX_M_
   __CPROVER_assume(dh_wf(&hp) && in_m <= NMAX);
   uint32_t* kb = malloc(NMAX * 4); __CPROVER_assume(kb != 0);
   for (unsigned i = 0; i < NMAX; i++) { kb[i] = in_keys[i]; __CPROVER_assume(!CMP_PRIO || kb[i] < HMAX); }
